@@ -47,13 +47,20 @@ def run(chk):
     states = dc.parse_dump(pathlib.Path(str(dump) + ".dump").read_text())
     if len(states) != r.distinct:
         raise MachineryError(f"dump has {len(states)} states, TLC reports {r.distinct}")
-    cases = [([list(p) for p in st["eg"]], bool(st["tgt"])) for st in states]
+    cases = [([list(p) for p in st["eg"]], bool(st["tgt"]), bool(st["ovl"])) for st in states]
 
     # ---- B2 -----------------------------------------------------------------------------
-    short = [c for c in cases if len(c[0]) <= 2]
-    long_ = [c for c in cases if len(c[0]) > 2]
-    n_long = len(long_) if chk.thorough() else 500
-    chosen = short + chk.rng.sample(long_, min(n_long, len(long_)))
+    # quick: every accepted grid of <= 2 points, seeded samples of the longer accepted grids and of
+    # the grids the design refuses; thorough: every state
+    if chk.thorough():
+        chosen = cases
+    else:
+        acc = [c for c in cases if not c[2]]
+        short = [c for c in acc if len(c[0]) <= 2]
+        long_ = [c for c in acc if len(c[0]) > 2]
+        ref = [c for c in cases if c[2]]
+        chosen = short + chk.rng.sample(long_, min(130, len(long_))) + chk.rng.sample(ref, min(24, len(ref)))
+    chosen = [(eg, tgt) for eg, tgt, _ in chosen]
     jobs = [(k, eg, tgt, chk.rng.randrange(2**31), str(chk.scratch)) for k, (eg, tgt) in enumerate(chosen)]
     ctx = mp.get_context("fork")
     with ctx.Pool(16) as pool:
@@ -69,8 +76,32 @@ def run(chk):
     for k in (0, len(recs) // 2, len(recs) - 1):
         chk.sample({"record": recs[k], "concrete": extras[k].get("concrete"), "msg": extras[k]["msg"]})
 
-    # ---- B3 -----------------------------------------------------------------------------
-    bad, conf = _validate(chk, recs)
+    # ---- B3 (+ binding demonstration: corrupted copies of a clean record ride along) ----------
+    def ascending(rec):
+        return rec["outcome"] == "written" and len(rec["eg"]) >= 2 and not rec["tgt"] and \
+            all(a[0] < b[0] for a, b in zip(rec["eg"], rec["eg"][1:]))
+
+    base = next((rec for rec in recs if ascending(rec)), None)
+    if base is None:
+        raise MachineryError("no accepted export of an ascending grid to corrupt")
+    c = [copy.deepcopy(base) for _ in range(5)]
+    c[0]["info"]["qmin"] = c[0]["info"]["qmax"] + 1
+    c[1]["valCls"] = 2
+    c[2]["info"]["members"] += 1
+    c[3]["blocks"][0]["qs"] = list(reversed(c[3]["blocks"][0]["qs"])) + [9]
+    c[4]["alphaCls"] = 2
+    expect = ["C45:qmin-qmax-not-min-max-of-written-q", "C45:block-values-differ-from-applied-pdf", "C45:num-members",
+              "C45:written-q-nodes-are-not-the-evolution-points", "C45:alphas-vals-differ-from-evolution-coupling"]
+    n = len(recs)
+    bad, conf = _validate(chk, recs + c)
+    chk.cov["traces_validated_against_impl"] -= len(c)
+    for j, name in enumerate(expect):
+        if n + j not in bad.get(name, []):
+            raise MachineryError(f"binding demonstration failed: corrupted record {j} not rejected with {name}")
+    bad = {v: [k for k in ks if k < n] for v, ks in bad.items()}
+    bad = {v: ks for v, ks in bad.items() if ks}
+    conf = {k: v for k, v in conf.items() if k < n}
+    chk.note("binding_demo", "5 corrupted records rejected by LhapdfTrace with the expected clause")
     for verdict, idx in sorted(bad.items()):
         k = min(idx, key=lambda j: (len(recs[j]["eg"]), recs[j]["tgt"]))
         what = (f"{verdict}: {len(idx)} of {len(recs)} exports; e.g. mugrid={extras[k].get('concrete', {}).get('mugrid', recs[k]['eg'])} "
@@ -86,21 +117,3 @@ def run(chk):
     if follows["neither"]:
         k = next(k for k, c in conf.items() if c == "neither")
         chk.diag(f"conformance: info of {recs[k]['eg']} tgt={recs[k]['tgt']} is {recs[k]['info']} (neither design)")
-
-    # ---- binding demonstration ------------------------------------------------------------
-    clean = [k for k in range(len(recs)) if recs[k]["outcome"] == "written" and len(recs[k]["eg"]) >= 2
-             and all(k not in v for v in bad.values())]
-    if not clean:
-        raise MachineryError("no accepted export to corrupt")
-    base = recs[clean[0]]
-    c = [copy.deepcopy(base) for _ in range(5)]
-    c[0]["info"]["qmin"] = c[0]["info"]["qmax"] + 1
-    c[1]["valCls"] = 2
-    c[2]["info"]["members"] += 1
-    c[3]["blocks"][0]["qs"] = list(reversed(c[3]["blocks"][0]["qs"])) + [9]
-    c[4]["alphaCls"] = 2
-    r = chk.tlc("LhapdfTrace", "LhapdfTrace.cfg", trace=c, workers=1, label="corrupted records (must be rejected)")
-    rej = {t[1] for t in r.printed("BAD") if t[2].startswith("C45:")}
-    if rej != {1, 2, 3, 4, 5}:
-        raise MachineryError(f"binding demonstration failed: corrupted records accepted ({rej})")
-    chk.note("binding_demo", "5 corrupted records rejected by LhapdfTrace")
